@@ -208,3 +208,49 @@ def special_points_pass(rng, tier):
                         if not (math.isfinite(got[d]) and abs(got[d] - exp[d]) <= max(op.tol, 1e-8) * sc): fail = 'coefficient %d: got %r, (1/d!) d^d/dt^d f(x(t)) = %r' % (d, got[d], exp[d]); break
                     if fail: break
                 yield op.name, case, fail
+
+
+ARITH_OPS = [('x+y', lambda x, y: x + y), ('x-y', lambda x, y: x - y), ('x*y', lambda x, y: x * y), ('x/y', lambda x, y: x / y), ('x+0.5', lambda x, y: x + 0.5), ('0.5-x', lambda x, y: 0.5 - x),
+             ('x*0.5', lambda x, y: x * 0.5), ('x/2', lambda x, y: x / 2), ('x/2.0', lambda x, y: x / 2.0), ('3/x', lambda x, y: 3 / x), ('0.5/x', lambda x, y: 0.5 / x), ('x**2', lambda x, y: x ** 2), ('x**-1', lambda x, y: x ** -1),
+             ('x**0.5', lambda x, y: x ** 0.5), ('x**y', lambda x, y: x ** y), ('2**x', lambda x, y: 2 ** x), ('-x', lambda x, y: -x), ('x+=0.5', lambda x, y: x.__iadd__(0.5)), ('x*=0.5', lambda x, y: x.__imul__(0.5)),
+             ('x/=2', lambda x, y: x.__itruediv__(2)), ('x-=y', lambda x, y: x.__isub__(y)), ('x*=y', lambda x, y: x.__imul__(y)), ('x/=y', lambda x, y: x.__itruediv__(y)), ('x+ndarray', lambda x, y: x + numpy.array([0.5, 1.5])),
+             ('x/ndarray[int]', lambda x, y: x / numpy.array([2, 4]))]
+
+
+def integer_typed_pass(rng, tier, kinds):
+    """Integer-valued coefficients are real coefficients: a polynomial built from an integer-typed coefficient array must give the same
+    result as the polynomial built from the same values in floating point (oracle: the floating-point evaluation, itself decided by the
+    other passes).  kinds: 'elementwise' (C01), 'linalg' (C07), 'arith' (C02).  Values are small integers, zeroth coefficients integers of
+    the function's domain of smoothness (functions without an integer there are skipped); cases whose floating-point evaluation raises or
+    is not finite are skipped."""
+    a = native.algopy(); U = a.UTPM
+    DPs = ((2, 1), (3, 2)) if tier == 'quick' else ((1, 1), (2, 1), (3, 2), (4, 3))
+    todo = []
+    if 'arith' in kinds: todo += [('arith', nm, f, 2, ((2,), (2, 2)), (1, 3)) for nm, f in ARITH_OPS]
+    for op in optable.table():
+        k = 'elementwise' if op.kind.startswith('elementwise') else op.kind
+        if k in kinds and k != 'arith': todo.append((k, op.name, op.f, op.nin, op.shapes, op.dom, op))
+    for ent in todo:
+        k, name, f, nin, shapes, dom = ent[:6]; op = ent[6] if len(ent) > 6 else None
+        shape_sets = [tuple(shapes)] if (op is not None and nin == 2 and k == 'linalg') else [tuple([s] * nin) for s in shapes]
+        for shs in shape_sets:
+            for (D, P) in DPs:
+                xi = []
+                for s in shs:
+                    x = numpy.rint(2 * optable.gen_input(rng, D, P, s, dom, kind=(op.kind if op else 'elementwise'), name=name))
+                    if k != 'linalg':
+                        ints = [v for v in range(-3, 4) if dom[0] <= v <= dom[1]]
+                        if not ints: x = None; break
+                        x[0] = numpy.array([rng.choice(ints) for _ in range(x[0].size)]).reshape(x[0].shape)
+                    xi.append(x)
+                if not xi or xi[-1] is None: continue
+                case = {'op': name + '[integer-typed]', 'D': D, 'P': P, 'shapes': [list(s) for s in shs]}
+                fl = lambda r: [t.data if isinstance(t, U) else numpy.asarray(t) for t in (r if isinstance(r, (tuple, list)) else (r,))]
+                with numpy.errstate(all='ignore'):
+                    try: rf = fl(f(*[U(x.astype(float)) for x in xi]))
+                    except Exception: continue
+                    if not all(numpy.all(numpy.isfinite(t)) for t in rf if t.dtype.kind in 'fc'): continue
+                    try: ri = fl(f(*[U(x.astype(int)) for x in xi]))
+                    except Exception as e: yield k, name, case, 'raises %s (%s) for integer-typed coefficient arrays; the same values in floating point evaluate' % (type(e).__name__, str(e)[:80]); continue
+                ok = len(rf) == len(ri) and all(p.shape == q.shape and numpy.allclose(p, q, rtol=1e-12, atol=1e-13) for p, q in zip(rf, ri))
+                yield k, name, case, (None if ok else 'integer-typed coefficient arrays give %s, the same values in floating point %s' % (str(ri[0].ravel()[:4]), str(rf[0].ravel()[:4])))
